@@ -11,8 +11,8 @@ MANIFEST = dict(
     text="Operator-level half. Proved in Lean: the finalizer loop of subscription.go:114-150 over arbitrary TREES of subscriptions (an operator's teardown is the Unsubscribe of another subscription; "
          "composite subscriptions) and arbitrary subsets of panicking teardowns runs every teardown exactly once, depth first, raises nothing when nothing panicked and otherwise raises, after the loop, "
          "a join of unsubscription errors whose root causes are exactly the panic values in run order (teardown_tree, teardown_every_subset, teardown_flat, teardown_quiet); closed downstream => source "
-         "released, also when closed from inside a callback (released, released_from_inside). Pinned tree: ObserveOn/SubscribeOn and ThrowOnContextCancel release their goroutine in the same closure as, "
-         "and after, the upstream Unsubscribe without isolating it (closure_skips_witness; setups_isolated decides that no other modelled set-up does) - known findings. "
+         "released, also when closed from inside a callback (released, released_from_inside). ObserveOn/SubscribeOn, ThrowOnContextCancel and ToChannel release their goroutine/channel in a deferred action of the teardown closure (fix 694a874): it runs although an upstream teardown panics "
+         "(deferred_release); setups_isolated decides that no modelled set-up tree contains an unisolated multi-action closure. "
          "Tie: teardown log, value raised to the caller (reduced to its root causes), position of the raise, second Unsubscribe, closed flag and goroutine survival for a panicking probe (error and "
          "non-error values, every subset) below every catalogue operator, with TapOnFinalize above/below, in Merge/TakeUntil/CombineLatest set-ups and below the goroutine-owning operators: EQUAL to the model; "
          "raw teardown counts of kinds ops, chains and cutin; goroutine-leak kind.",
